@@ -418,3 +418,47 @@ def judge_cases(rep, cases, outs, keyf=None, robust=True):
         r = o["res"]
         shape = r["k"] + ":" + (r["e"] if r["k"] in ("err", "fail") else "")
         rep.nontrivial((c["fn"], c["pin"], shape, len(json.dumps(c["expect"].get("v", ""))) // 8))
+
+
+def tlc_single(prop, run, module, cfg=None, env=None, workers=1, heap="4g", timeout=600, out_name="out.ndjson", d=None):
+    """One TLC process exploring a state machine (not chunked).  Lines it emits go to <d>/<out_name>."""
+    d = d or workdir(prop, run)
+    out_path = os.path.join(d, out_name)
+    e = {"VERIF_OUT": out_path, "VERIF_NCHUNKS": "1", "VERIF_CHUNK": "0"}
+    e.update(env or {})
+    t0 = time.time()
+    rc, out = run_tlc(d, module, cfg=cfg, env=e, workers=workers, heap=heap, timeout=timeout)
+    res = TlcResult()
+    res.stdout = out
+    parse_tlc(out, res)
+    res.wall = time.time() - t0
+    if rc != 0:
+        tail = "\n".join(l for l in out.splitlines() if not re.match(r"^(Parsing|Semantic|Linting)", l))[-3000:]
+        log("TLC %s failed (%d):\n%s" % (module, rc, tail))
+        raise ToolError("model checking of %s failed (the specification itself is broken): %s" % (module, res.errors[:3]))
+    lines = read_ndjson(out_path) if os.path.exists(out_path) else []
+    log("TLC %s: %d distinct states, %d generated, %d lines, %.1fs" % (module, res.distinct, res.generated, len(lines), res.wall))
+    return d, res, lines
+
+
+def judge_defrag_step(exp, obs):
+    """Pinned observables of one defragmenter step (DESIGN.md appendix I).  Returns reason or None."""
+    r, e = obs["res"], exp["res"]
+    if r["k"] in ("panic", "timeout"):
+        return "the call panicked: %s" % r.get("e")
+    if r["k"] != e["k"]:
+        return "outcome %s(%s), the specification says %s(%s) [%s]" % (r["k"], r.get("e") or r.get("n"), e["k"], e.get("e") or e.get("n"), exp.get("path"))
+    if obs["inprog"] != exp["inprog"]:
+        return "defrag_in_progress() = %s, the specification says %s [%s]" % (obs["inprog"], exp["inprog"], exp.get("path"))
+    if exp["inprog"] and obs["buflen"] != exp["buflen"]:
+        return "buffer length %d while defragmenting, the specification says %d [%s]" % (obs["buflen"], exp["buflen"], exp.get("path"))
+    if e["k"] == "ok":
+        if r["p"] != e["p"] or not jeq(r["v"], e["v"]):
+            return "value / remainder differ from the specification [%s]" % exp.get("path")
+        if r["src"] not in ("none", exp["src"]):
+            return "returned slices borrow '%s', the specification says '%s'" % (r["src"], exp["src"])
+    if e["k"] in ("err", "fail") and e["e"] in ("Tag", "TooLarge", "NonEmpty") and r["e"] != e["e"]:
+        return "error kind %s, the specification says %s" % (r["e"], e["e"])
+    if not obs.get("rem_ok", True):
+        return "remainder is not the tail of the parsed region"
+    return None
